@@ -9,33 +9,55 @@ Open Scope string_scope.
 
 Section C15.
   Variable imports : string -> option (list string).
-  (* the reachable part of the import graph is finite *)
+  (* the part of the import graph reachable from the top package is finite: `universe` lists it
+     (a premise about THIS top: `reach imports top top` holds for every top, so no finite list can
+     cover all tops at once -- an earlier version of this file quantified the premise over all tops,
+     which no universe satisfies; found by the C03 sub-agent, see DESIGN.md) *)
   Variable universe : list string.
-  Hypothesis universe_ok : forall top p, reach imports top p -> In p universe.
+  Variable top : string.
+  Hypothesis universe_ok : forall p, reach imports top p -> In p universe.
 
   (* the discovery worklist terminates within its budget (the Go loop terminates) *)
-  Theorem c15_terminates : forall top b, budget imports universe <= b -> load imports b top <> LoadFuel.
-  Proof. exact (c15_no_fuel imports universe universe_ok). Qed.
+  Theorem c15_terminates : forall b, budget imports universe <= b -> load imports b top <> LoadFuel.
+  Proof. intros b. exact (c15_no_fuel imports universe top b universe_ok). Qed.
 
   (* whatever order is produced lists exactly the packages reachable from the top package, each once,
      every package after all the packages it imports *)
-  Theorem c15_order : forall top b l, budget imports universe <= b ->
+  Theorem c15_order : forall b l, budget imports universe <= b ->
     load imports b top = LoadOk l -> valid_order imports top l.
-  Proof. exact (C15_loader.c15_order imports universe universe_ok). Qed.
+  Proof. intros b l. exact (C15_loader.c15_order imports universe top b l universe_ok). Qed.
 
   (* an import cycle among the reachable packages is an error -- never a wrong order *)
-  Theorem c15_cycle : forall top b, budget imports universe <= b -> cyclic imports top -> load imports b top = LoadCycle.
-  Proof. exact (C15_loader.c15_cycle imports universe universe_ok). Qed.
+  Theorem c15_cycle : forall b, budget imports universe <= b -> cyclic imports top -> load imports b top = LoadCycle.
+  Proof. intros b. exact (C15_loader.c15_cycle imports universe top b universe_ok). Qed.
 
   (* and every acyclic graph loads *)
-  Theorem c15_acyclic : forall top b, budget imports universe <= b -> ~ cyclic imports top ->
+  Theorem c15_acyclic : forall b, budget imports universe <= b -> ~ cyclic imports top ->
     exists l, load imports b top = LoadOk l.
-  Proof. exact (C15_loader.c15_acyclic imports universe universe_ok). Qed.
+  Proof. intros b. exact (C15_loader.c15_acyclic imports universe top b universe_ok). Qed.
 End C15.
 Print Assumptions c15_terminates.
 Print Assumptions c15_order.
 Print Assumptions c15_cycle.
 Print Assumptions c15_acyclic.
+
+(* the premise is satisfiable: every graph given by a finite association list has such a universe for
+   every top (the top itself plus every package mentioned anywhere in the list) *)
+Definition graph_of (g : list (string * list string)) (p : string) : option (list string) :=
+  (fix find (l : list (string * list string)) := match l with [] => None | (k, v) :: r => if String.eqb k p then Some v else find r end) g.
+Definition mentioned (g : list (string * list string)) : list string :=
+  List.concat (map (fun kv => fst kv :: snd kv) g).
+Theorem c15_premise_satisfiable : forall g top p, reach (graph_of g) top p -> In p (top :: mentioned g).
+Proof.
+  intros g top p H. induction H as [|a b Hr IH He].
+  - left; reflexivity.
+  - right. destruct He as (imps & Hi & Hb). unfold mentioned.
+    clear IH Hr. revert Hi. unfold graph_of. induction g as [|[k v] r IHg]; [discriminate|].
+    destruct (String.eqb k a) eqn:E; intros Hi.
+    + inversion Hi; subst. cbn [map List.concat fst snd]. right. apply in_or_app. left. exact Hb.
+    + cbn [map List.concat fst snd]. right. apply in_or_app. right. apply IHg. exact Hi.
+Qed.
+Print Assumptions c15_premise_satisfiable.
 
 (* non-vacuity: a diamond with a duplicate import and a native package; a two-cycle below main *)
 Example c15_witness :
